@@ -16,6 +16,7 @@ package c06
 import (
 	"bufio"
 	"bytes"
+	"compress/gzip"
 	"fmt"
 	"io"
 	"math"
@@ -26,6 +27,7 @@ import (
 
 	"github.com/openGemini/openGemini/lib/record"
 	"github.com/openGemini/openGemini/lib/util/lifted/influx/httpd"
+	"github.com/openGemini/openGemini/lib/util/lifted/influx/meta"
 	"github.com/openGemini/openGemini/lib/util/lifted/vm/protoparser/influx"
 
 	"verif/harness/internal/hx"
@@ -121,6 +123,8 @@ func (o *reqOp) get(k string) string {
 type handlerRig struct {
 	handlers map[int]*httpd.Handler
 	rec      *recWriter
+	data     *meta.Data
+	maxH     map[int]*httpd.Handler
 }
 
 func newHandlerRig() (*handlerRig, error) {
@@ -128,7 +132,7 @@ func newHandlerRig() (*handlerRig, error) {
 	if err != nil {
 		return nil, err
 	}
-	rig := &handlerRig{handlers: map[int]*httpd.Handler{}, rec: &recWriter{}}
+	rig := &handlerRig{handlers: map[int]*httpd.Handler{}, rec: &recWriter{}, data: data}
 	for _, blk := range blockSizes {
 		h, _ := newHandler(data, blk)
 		h.PointsWriter = rig.rec
@@ -381,9 +385,17 @@ func (r *chunkReader) Read(p []byte) (int, error) {
 // smaller buffer from the pool: the carried tail may not fit; the Go runtime then decides the
 // capacity, which is why those runs are judged against the spec only).
 func runSplit(blk, maxLine int, caps []int, body []byte, chunk int, keep bool) (blocks [][]byte, errClass string) {
+	return runSplitSrc(blk, maxLine, caps, body, chunk, keep, nil)
+}
+
+// runSplitSrc: the source delivers body and ends with fin (nil: io.EOF).
+func runSplitSrc(blk, maxLine int, caps []int, body []byte, chunk int, keep bool, fin error) (blocks [][]byte, errClass string) {
 	var rd io.Reader = bytes.NewReader(body)
 	if chunk > 0 {
 		rd = &chunkReader{b: body, n: chunk}
+	}
+	if fin != nil {
+		rd = &failingReader{data: append([]byte(nil), body...), chunk: chunk, err: fin}
 	}
 	br := bufio.NewReaderSize(rd, 64*1024)
 	var tail []byte
@@ -410,6 +422,8 @@ func runSplit(blk, maxLine int, caps []int, body []byte, chunk int, keep bool) (
 				return blocks, "toolong"
 			case strings.Contains(err.Error(), "no forward progress"):
 				return blocks, "noprogress"
+			case strings.Contains(err.Error(), "cannot read a block of data"):
+				return blocks, "readerr"
 			}
 			return blocks, "other:" + err.Error()
 		}
@@ -496,6 +510,248 @@ func judgeSplit(c *hx.Ctx, ln int, body []byte, blocks [][]byte, ec string, maxL
 	c.Count("split:verdict:ok")
 }
 
+// completeLines: the lines of what a source delivered that are complete - terminated by a newline
+// there, or the unterminated rest when the source ended cleanly.
+func completeLines(data []byte, clean bool) [][]byte {
+	parts := bytes.Split(data, []byte{'\n'})
+	last := parts[len(parts)-1]
+	parts = parts[:len(parts)-1]
+	if clean && len(last) > 0 {
+		parts = append(parts, last)
+	}
+	return parts
+}
+
+// judgeSplitFail: the source failed after `data`: the splitter must report the failure and every
+// line of every block it handed over must be a complete line of data.
+func judgeSplitFail(c *hx.Ctx, ln int, data []byte, blocks [][]byte, ec string) {
+	viol := func(class, desc string) {
+		c.Violation(ln, class, desc+"; the source delivered "+short(data)+" and then failed with io.ErrUnexpectedEOF; answer "+short([]byte(splitAnswer(blocks, ec))))
+	}
+	have := map[string]int{}
+	for _, l := range completeLines(data, false) {
+		have[string(l)]++
+	}
+	for _, b := range blocks {
+		for _, l := range splitBlock(b) {
+			if have[string(l)] == 0 {
+				viol("cut_line_stored", "the line "+short(l)+" was handed to the parser and is not a complete line of what the source delivered (position of the failure: byte "+strconv.Itoa(len(data))+")")
+				return
+			}
+		}
+	}
+	switch ec {
+	case "readerr", "toolong":
+		c.Count("split:verdict:failure_reported")
+	case "":
+		viol("unexplained:read_error_swallowed", "the source's error was not reported")
+	default:
+		viol("unexplained:split_error", "the splitter failed with "+ec)
+	}
+}
+
+// ---- requests whose body source fails ------------------------------------------------------
+
+type failOp struct {
+	reqOp
+	kind      string // abort | maxbody | gzip
+	pos       int    // bytes of the body delivered before the failure
+	maxBody   int
+	chunk     int
+	delivered []byte
+	modelled  bool
+}
+
+func (o *failOp) op() string {
+	ps := make([]string, len(o.params))
+	for i, kv := range o.params {
+		ps[i] = hexOr([]byte(kv[0])) + "=" + hexOr([]byte(kv[1]))
+	}
+	s := fmt.Sprintf("reqf %d %s %d %s", b2i(o.v2), strings.Join(ps, "&"), o.blk, hexOr(o.delivered))
+	if !o.modelled {
+		return "note " + o.kind + " pos=" + strconv.Itoa(o.pos) + " " + s
+	}
+	return s
+}
+
+var maxBodySizes = []int{64, 150, 400, 1500}
+
+func (rig *handlerRig) maxHandler(m int) *httpd.Handler {
+	if rig.maxH == nil {
+		rig.maxH = map[int]*httpd.Handler{}
+	}
+	if h, ok := rig.maxH[m]; ok {
+		return h
+	}
+	h, _ := newHandlerMax(rig.data, 0, m)
+	h.PointsWriter = rig.rec
+	rig.maxH[m] = h
+	return h
+}
+
+// genFailOp: a body of clean lines whose source fails at a generated position: inside a field
+// value, inside the timestamp, between lines, anywhere.
+func genFailOp(r *hx.Rng, clean func() []byte, big bool) *failOp {
+	o := &failOp{reqOp: reqOp{blk: blockSizes[0]}, chunk: []int{0, 0, 1, 7, 100}[r.Intn(5)]}
+	o.params = [][2]string{{"db", e2eDB}}
+	if r.Bool() {
+		o.params = append(o.params, [2]string{"precision", []string{"ns", "u", "ms", "s"}[r.Intn(4)]})
+	}
+	nl := 1 + r.Intn(4)
+	if big {
+		nl = 4000
+	}
+	for j := 0; j < nl; j++ {
+		o.body = append(o.body, clean()...)
+		o.body = append(o.body, '\n')
+	}
+	// the last line ends with digits the cut can fall into (field value, then timestamp)
+	lastStart := len(o.body)
+	o.body = append(o.body, []byte(fmt.Sprintf("cpu%d,host=a usage=123456,idle=%d.25 17000%05d\n", r.Intn(10), r.Intn(1000), r.Intn(100000)))...)
+	switch r.Intn(10) {
+	case 0, 1, 2:
+		o.pos = len(o.body) - 1 - r.Intn(min(22, len(o.body)-1)) // inside the last value / timestamp
+	case 3:
+		o.pos = lastStart // between lines
+	case 4:
+		o.pos = len(o.body) - 1 // everything but the final newline
+	default:
+		o.pos = r.Intn(len(o.body) + 1)
+	}
+	if big && o.pos < 70000 {
+		o.pos = 70000 + r.Intn(len(o.body)-70000)
+	}
+	switch k := r.Intn(10); {
+	case k < 5:
+		o.kind = "abort"
+		o.delivered = o.body[:o.pos]
+		o.modelled = !big && len(o.delivered) < o.blk
+	case k < 8 && !big:
+		o.kind = "maxbody"
+		o.maxBody = maxBodySizes[r.Intn(len(maxBodySizes))]
+		if len(o.body) <= o.maxBody+1 { // the limit must bite: pick the largest one below the body
+			o.maxBody = max(1, o.pos-1)
+			found := false
+			for _, m := range maxBodySizes {
+				if m+1 < len(o.body) {
+					o.maxBody, found = m, true
+				}
+			}
+			if !found {
+				o.kind = "abort"
+				o.delivered = o.body[:o.pos]
+				o.modelled = true
+				return o
+			}
+		}
+		o.pos = o.maxBody + 1
+		o.delivered = o.body[:o.pos]
+		o.modelled = true
+	default:
+		o.kind = "gzip" // the compressed stream is cut: what the decompressor delivers before it fails is its business
+		o.gz = true
+		o.delivered = nil
+		o.modelled = false
+	}
+	return o
+}
+
+func (rig *handlerRig) runFail(o *failOp) (string, writeResp, []recCall) {
+	rig.rec.mu.Lock()
+	rig.rec.calls = nil
+	rig.rec.t0 = time.Now().UnixNano()
+	rig.rec.mu.Unlock()
+	h := rig.handlers[o.blk]
+	wr := &writeReq{params: o.params, v2: o.v2}
+	switch o.kind {
+	case "abort":
+		wr.src = &failingReader{data: append([]byte(nil), o.body[:o.pos]...), chunk: o.chunk, err: io.ErrUnexpectedEOF}
+	case "maxbody":
+		h = rig.maxHandler(o.maxBody)
+		wr.src = &failingReader{data: append([]byte(nil), o.body...), chunk: o.chunk} // the whole body, length not announced
+	case "gzip":
+		var zb bytes.Buffer
+		zw := gzip.NewWriter(&zb)
+		_, _ = zw.Write(o.body)
+		_ = zw.Close()
+		z := zb.Bytes()
+		cut := len(z) * o.pos / max(1, len(o.body))
+		if cut >= len(z) {
+			cut = len(z) - 1
+		}
+		wr.src = &failingReader{data: append([]byte(nil), z[:cut]...), chunk: o.chunk, err: io.ErrUnexpectedEOF}
+		wr.gzipHeader = true
+	}
+	resp := serveWriteReq(h, wr)
+	rig.rec.mu.Lock()
+	calls := append([]recCall(nil), rig.rec.calls...)
+	rig.rec.mu.Unlock()
+	st := statusClass(resp)
+	if len(calls) == 0 {
+		return st + " nocall", resp, calls
+	}
+	var rows []string
+	for _, cl := range calls {
+		for i := range cl.rows {
+			rows = append(rows, cl.rows[i].text())
+		}
+	}
+	sort.Strings(rows)
+	ans := fmt.Sprintf("%s db=%s rp=%s", st, hexOr([]byte(calls[0].db)), hexOr([]byte(calls[0].rp)))
+	if len(rows) > 0 {
+		ans += " " + strings.Join(rows, " | ")
+	}
+	return ans, resp, calls
+}
+
+// judgeFail: the request must be answered with an error and every point handed to the points
+// writer must be a complete line of the text (of what was delivered, when that is known).
+func (rig *handlerRig) judgeFail(c *hx.Ctx, ln int, o *failOp, ans string, resp writeResp, calls []recCall) {
+	where := fmt.Sprintf("%s at byte %d of %d", o.kind, o.pos, len(o.body))
+	if o.kind == "maxbody" {
+		where = fmt.Sprintf("max-body-size=%d, chunked upload of %d bytes", o.maxBody, len(o.body))
+	}
+	viol := func(class, desc string) {
+		c.Violation(ln, class, desc+"; "+where+"; request "+o.target()+" body "+short(o.body)+" answered "+short([]byte(ans)))
+	}
+	if resp.hung || resp.panicS != "" {
+		viol("unexplained:panic_or_hang", "the handler did not answer: "+resp.panicS)
+		return
+	}
+	prec := o.get("precision")
+	text := o.body
+	if o.delivered != nil {
+		text = o.delivered
+	}
+	have := map[string]int{}
+	for _, l := range completeLines(text, false) {
+		if eo, _, _, _ := exactOutcome(l, prec); eo.kind == loRow {
+			have[eo.row.text()]++
+		}
+	}
+	if o.delivered == nil {
+		// (gzip: the delivered prefix is not known; the complete lines of the whole text are the bound)
+		for _, l := range completeLines(o.body, true) {
+			if eo, _, _, _ := exactOutcome(l, prec); eo.kind == loRow {
+				have[eo.row.text()]++
+			}
+		}
+	}
+	for _, cl := range calls {
+		for i := range cl.rows {
+			if t := cl.rows[i].text(); have[t] == 0 {
+				viol("cut_line_stored", "the point "+t+" was handed to the points writer and is no complete line of the text")
+				return
+			}
+		}
+	}
+	if resp.status/100 == 2 {
+		viol("unexplained:read_error_acknowledged", "the body source failed and the request was acknowledged")
+		return
+	}
+	c.Count("reqf:verdict:refused_nothing_cut:" + o.kind)
+}
+
 // runHandlerOps: n req ops + n/4 multi-block req ops + n split ops.
 func runHandlerOps(c *hx.Ctx, r *hx.Rng, n int, anyLine, validLine func() []byte) error {
 	rig, err := newHandlerRig()
@@ -522,6 +778,48 @@ func runHandlerOps(c *hx.Ctx, r *hx.Rng, n int, anyLine, validLine func() []byte
 			c.Count("req:v2")
 		}
 		c.Count("req:precision:" + o.get("precision"))
+	}
+	// requests whose body source fails (client abort, max-body-size on a chunked upload, cut gzip stream)
+	for i := 0; i < n/4; i++ {
+		o := genFailOp(r, validLine, i%200 == 199)
+		ans, resp, calls := rig.runFail(o)
+		if !o.modelled {
+			ans2 := "n/a"
+			ln := c.Emit(o.op(), ans2)
+			rig.judgeFail(c, ln, o, ans, resp, calls)
+		} else {
+			ln := c.Emit(o.op(), ans)
+			rig.judgeFail(c, ln, o, ans, resp, calls)
+		}
+		c.Case(o.op(), true)
+		c.Count("reqf:kind:" + o.kind)
+		c.Count("reqf:status:" + strings.Fields(ans)[0])
+	}
+	// the splitter over a source that fails
+	for i := 0; i < n/4; i++ {
+		blk := []int{16, 32, 64, 128}[r.Intn(4)]
+		maxLine := 200
+		var body []byte
+		for j := r.Intn(6); j >= 0; j-- {
+			body = append(body, anyLine()...)
+			body = append(body, '\n')
+		}
+		data := body[:r.Intn(len(body)+1)]
+		caps := []int{0}
+		if r.Chance(30) {
+			caps = []int{min(blk<<1, 256), 0}
+		}
+		chunk := []int{0, 1, 5, 40}[r.Intn(4)]
+		blocks, ec := runSplitSrc(blk, maxLine, caps, data, chunk, true, io.ErrUnexpectedEOF)
+		cs := make([]string, len(caps))
+		for k, cp := range caps {
+			cs[k] = strconv.Itoa(cp)
+		}
+		op := fmt.Sprintf("splite %d %d %s err %s", blk, maxLine, strings.Join(cs, ","), hexOr(data))
+		ln := c.Emit(op, splitAnswer(blocks, ec))
+		judgeSplitFail(c, ln, data, blocks, ec)
+		c.Case(op, true)
+		c.Count("splite:blocks:" + strconv.Itoa(min(len(blocks), 5)))
 	}
 	for i := 0; i < n; i++ {
 		// (capacities stay within 256 bytes - line limit 200 - where the runtime's growth of a
